@@ -114,6 +114,75 @@ CLAIMS = {
        "canvas. Seeded real-valued lists at five magnitudes are measured against half a unit of each format's last decimal.",
   design_ref="DESIGN.md section 6 C15", technique="TLC model of the three writers + replay into the real exporters + independent decoding + TLC trace validation",
   note=TB + " Known finding: beyond |x| = 2147.483647 the go3mf mesh builder used by write3MF merges distinct vertices."),
+ "C01": dict(
+  text="spec/CSG.tla defines the shape language of sdf2.go/sdf3.go on an exact lattice (three-valued membership Cmp without "
+       "square roots, exact values Val, the code's box arithmetic BBcode); CSGMachine.tla enumerates every placed primitive x "
+       "every constructor applied once and LCG-samples deeper expression trees (depth <= 2 quick, <= 3 thorough; translations "
+       "into negative quadrants, 90-degree rotations, mirrors, scale, offset, shell, cut, elongate, array, rotate-copy, extrude, "
+       "twist, revolve, slice, union/difference/intersection) and checks that BBcode encloses every certainly-negative point. Every "
+       "program is rebuilt with the real constructors; CSGTrace.tla accepts iff the real box is finite, ordered and contains every "
+       "logged strictly negative lattice point of the window two cells larger than the boxes (BBcode only as drift). Constructors "
+       "without lattice semantics (rounded primitives, cones, capsules, lines, polygons, arbitrary rotations, non-uniform scale, "
+       "the extrusion family, loft, revolve, screw, slice, voxel, text, cams, flange, rack, gear, spiral, splines, every obj part "
+       "with the examples' parameter sets) are probed on a stratified grid over the box enlarged by 50 %; BBoxTrace.tla judges.",
+  design_ref="DESIGN.md section 6 C01, sections 3 and 10", technique="TLC program enumeration on an exact lattice + replay on the real constructors + TLC trace validation; measured probes judged by a TLC trace spec",
+  note=TB + " Exhaustive only over depth-1 programs on the reduced parameter grid; deeper programs and all real-valued shapes are seeded samples; "
+       "'all points' is the integer window (stage 1) or a stratified sample (stage 2). Known findings are keyed by constructor."),
+ "C02": dict(
+  text="The same CSG.tla is the independent reference interpreter: for every explored program and every lattice point of its window "
+       "CSGTrace.tla compares the sign of the real Evaluate with Cmp wherever the lattice decides it and the value with Val where it "
+       "is rational (union = min, intersection = max, difference = max(a,-b), transforms / scale / offset / shell / elongate / array / "
+       "rotate-copy / extrude / twist / revolve / slice map the point or the level). Off the lattice the node laws are measured on "
+       "seeded real compositions (operand evaluated at the independently mapped point, incl. arbitrary rotation axes, mirrors, "
+       "non-uniform scale, loft, rounded extrusion, screw; twist and screw handedness markers; blends <= min and symmetric; voxel "
+       "corner / range laws) and judged by LawTrace.tla. Blend.tla: PolyMin/PolyMax exact on a rational grid, all laws of the property, "
+       "every case replayed on the real functions. Cache.tla: every query history of length <= 5 over 3 points (two equal as map "
+       "keys) replayed against the real Cache2D over a counting spy.",
+  design_ref="DESIGN.md section 6 C02, sections 3 and 10", technique="exact-lattice denotation as reference interpreter + replay + TLC trace validation; TLC-exact rational blend laws; TLC history enumeration for the cache; measured node laws judged by a TLC trace spec",
+  note=TB + " Node laws off the lattice are measured numerics (seeded) judged, not computed, by TLC."),
+ "C03": dict(
+  text="CSGMachine.tla carries the flags exact / lip1 with the propagation rules of the property and checks on the lattice Val = Dist "
+       "(an independently written clamp-form Euclidean distance) for exact chains and |Val(p)-Val(q)| <= |p-q| for neighbouring "
+       "lattice points of lip1 programs; CSGTrace.tla judges the same on the REAL values of every explored program (axis and diagonal "
+       "neighbours). Off the lattice every exact primitive (sphere, (rounded) box, (rounded) cylinder, capsule, (rounded) truncated cone, "
+       "circle, (rounded) 2D box, Line2D, polygon) is compared with closed-form / brute-force oracles at seeded points (inside, outside, "
+       "medial, on the axis, far away, rounding up to the admissible maximum), exactness under rigid transform / uniform scale / outward "
+       "offset / one-sided revolution, and the Lipschitz ratio is measured on random point pairs for every listed composition; judged "
+       "by LawTrace.tla / LipTrace.tla.",
+  design_ref="DESIGN.md section 6 C03, sections 3 and 10", technique="TLC flag propagation and exact lattice distances + replay + TLC trace validation; measured oracle comparisons and Lipschitz ratios judged by TLC trace specs",
+  note=TB + " The Lipschitz inequality at irrational values and the oracle comparisons are measured in Go and judged in TLC (DESIGN section 10)."),
+ "C17": dict(
+  text="PolyBuilder.tla is the vertex-list rewriting machine of Polygon.Vertices() (Drop, Polar, RelToAbs, createArcs, "
+       "smoothVertices in index order with the exact fit rule in Q(sqrt 2), Chamfer as a 1-facet fillet, Reverse, Close); TLC checks "
+       "the property's clauses (facets+1 points, tangent points, on-circle, centre tangent to both edges, unchanged when it does not "
+       "fit, facets-1 arc points) on every single compass corner (45/90/135 degrees, both turning directions, edge lengths 1..3, "
+       "radii 1..2, facets 1..3, chamfer), every w x h rectangle with four competing fillets (exact fits included), LCG-drawn "
+       "walks of 3..5 vertices mixing absolute/relative/polar vertices, Smooth, Chamfer, Arc, Close, Reverse, Drop, and Nagon(4); "
+       "every program runs on the real builder and PolyTrace.tla judges each real vertex against its item of the recomputed "
+       "expectation. Real-valued corners (near 0 and 180 degrees, either edge too short), arcs (chords/radii/signs, semicircles), "
+       "N-gons 3..24 and Bezier curves of degree 1..4 (lattice control polygons whose structure Bezier.tla checks, random control "
+       "polygons and handles; nearest-parameter search by de Casteljau) are measured by the harness and judged by PolyMeasTrace.tla.",
+  design_ref="DESIGN.md section 6 C17 and section 10", technique="TLC model of the builder's rewriting machine + replay into the real builder + TLC trace validation; measured geometry judged by a TLC trace spec",
+  note=TB + " Exact TLC geometry covers the rational family (axis-aligned 90-degree corners); all other geometry is measured against "
+       "analytic fillets/arcs/de Casteljau computed by the harness and only judged by TLC. An exactly fitting fillet is the boundary "
+       "of the fit rule: a differing vertex count there is drift. Known findings: NaN vertices next to an exactly fitting fillet, NaN "
+       "semicircle arcs."),
+ "C18": dict(
+  text="Threads.tla holds the standards as data written independently of the code (ISO 261 coarse/fine pitches, UNC/UNF number and "
+       "fractional sizes, NPT outside diameters/TPI/1:32 half-angle taper) and the designation grammar; TLC checks the data (fine < "
+       "coarse, monotone, names injective, ToMM = x127/5 idempotent) and enumerates every candidate designation of the grammar; "
+       "sdf.ThreadLookup is called for every candidate (database names are also taken from a source scan so that a name outside the "
+       "grammar is noticed) and ThreadTrace.tla recomputes radius/pitch/taper from the designation tokens and judges the real entry "
+       "and its ToMillimetre conversion. Screw.tla is the right-handed helical map on the (45-degree, quarter-unit) lattice of a "
+       "rectangular profile; every lattice point x starts in {1,-1,2,-2} is evaluated on the real Screw3D and judged (absolute "
+       "handedness, pitch periodicity). For every database entry x tolerances {0, 0.05, 0.2 mm}: helical invariance at random real "
+       "angles (starts 1,-1,2,-3), z-periodicity, opposite-hand control, mating of the external thread with the material left by the "
+       "internal thread (same taper) and obj.Bolt against obj.Nut on a stratified sample of the thread annulus over two pitches, and "
+       "the realised taper - measured by the harness, judged by ScrewTrace.tla.",
+  design_ref="DESIGN.md section 6 C18 and section 10", technique="TLC-checked standards data + exhaustive replay of the thread database + lattice helix model + TLC trace validation of measured screw geometry",
+  note=TB + " The database clause is exhaustive over the real entries; helical invariance and mating are seeded samples judged (not "
+       "computed) by TLC; starts beyond +-3 and thread lengths are not varied. Known finding: ScrewSDF3.Evaluate uses atan(taper) "
+       "for the taper slope."),
 }
 
 NOT_APPLICABLE = {}
